@@ -133,11 +133,20 @@ def install(path: str):
         emit({"ev": "answer", "mid": mid, "q": qid_of(query), "text": str(query), "result": b2s(r), "to": False})
         return r
 
+    o_create = im.create_inference_instance
+
+    def w_create(epistemic_state):
+        inst = o_create(epistemic_state)
+        emit({"ev": "instance", "mid": mid_of(epistemic_state), "system": epistemic_state["inference_system"], "backend": epistemic_state["pmaxsat_solver"],
+              "cls": type(inst).__name__})
+        return inst
+
+    im.create_inference_instance = w_create
     IM.__init__ = w_init
     IM.inference = w_inference
     Inf.preprocess_belief_base = w_prep
     Inf.general_inference = w_general
-    _state["undo"] = [(IM, "__init__", o_init), (IM, "inference", o_inf), (Inf, "preprocess_belief_base", o_prep), (Inf, "general_inference", o_gen)]
+    _state["undo"] = [(im, "create_inference_instance", o_create), (IM, "__init__", o_init), (IM, "inference", o_inf), (Inf, "preprocess_belief_base", o_prep), (Inf, "general_inference", o_gen)]
     _state["installed"] = True
 
 
